@@ -17,7 +17,7 @@ neither to the fluxes nor to one another).  The cube files of both memmap settin
 with the per-file package name by name (flux and error, 1e-12).
 
 Reach: per-file SEDs stored in mJy, Jy or erg/cm2/s (`SED.read(unit_flux=mJy)` converts), cubes in mJy or Jy
-(`val_factor` / `unc_factor` != 1); aperture-less packages (no aperture list: the per-file format carries the
+(`val_factor` / `unc_factor` != 1), values and uncertainties possibly in different units in either format; aperture-less packages (no aperture list: the per-file format carries the
 1e-30 cm placeholder of `SED.write`, the cube format no APERTURES table); fits from the per-file package with
 `use_memmap=True` as well; a cube package whose parameter table is in another row order is a compared refusal
 (the code raises ValueError, the model answers `namesMismatch`).
@@ -52,6 +52,7 @@ REQUIRED_BRANCHES = ['perfile', 'cube', 'conv_memmap_on', 'conv_memmap_off', 'fi
                      'cube_memmap_on_vs_perfile', 'cube_memmap_off_vs_perfile',
                      'no_apertures', 'unit_sed_mJy', 'unit_sed_Jy', 'unit_sed_erg', 'unit_cube_mJy', 'unit_cube_Jy',
                      'perfile_fit_memmap_on', 'cube_table_permuted', 'cube_table_same_order',
+                     'cube_val_unc_units_differ', 'sed_flux_err_units_differ',
                      'models_1', 'models_8', 'sed_subdir']
 ASSUMPTIONS = ['astropy FITS I/O stores float64 columns and string columns faithfully (observed, not proved)',
                'IEEE rounding is not modelled: flat-spectrum and cross-format comparisons use 1e-11 / 1e-12 relative',
@@ -169,6 +170,9 @@ def gen_case(rng, n=None, table_perm=None, directed=None):
     # stored flux units: per-file SEDs in mJy, Jy or erg/cm2/s (nu F_nu); the cube in mJy or Jy
     unit_sed = directed.get('unit_sed', rng.choice(['mJy', 'mJy', 'Jy', 'erg/cm2/s']))
     unit_cube = directed.get('unit_cube', rng.choice(['mJy', 'Jy']))
+    # uncertainties may carry another unit than the values (the files store the two units separately)
+    unit_sed_err = directed.get('unit_sed_err', rng.choice([unit_sed, unit_sed, 'mJy', 'Jy', 'erg/cm2/s']))
+    unit_cube_unc = directed.get('unit_cube_unc', rng.choice([unit_cube, 'mJy', 'Jy']))
     nw = rng.randint(4, 24)
     wav = sorted({nice(rng, 0.08, 900., 4) for _ in range(nw)} | {0.05, 1500.})
     nf = directed.get('nf') or rng.choice([2, 3])
@@ -201,17 +205,18 @@ def gen_case(rng, n=None, table_perm=None, directed=None):
                 sed_store=directed.get('sed_store', rng.choice(['nu_inc', 'nu_dec'])),
                 cube_store=directed.get('cube_store', rng.choice(['nu_inc', 'nu_dec'])),
                 g=g, h=h, c=c, e=e, tilt=tilt, etilt=etilt, general=general, filters=filters, src=src, av=[0., 40.],
-                flat=flat, unit_sed=unit_sed, unit_cube=unit_cube, cube_table=cube_table)
+                flat=flat, unit_sed=unit_sed, unit_cube=unit_cube, unit_sed_err=unit_sed_err, unit_cube_unc=unit_cube_unc,
+                cube_table=cube_table)
 
 
 DIRECTED = [
-    dict(n=1, nap=1, nf=2, flat=True, sed_store='nu_inc', cube_store='nu_dec', pad=True, no_aps=True, unit_sed='Jy', unit_cube='mJy', cube_perm=True),
+    dict(n=1, nap=1, nf=2, flat=True, sed_store='nu_inc', cube_store='nu_dec', pad=True, no_aps=True, unit_sed='Jy', unit_cube='mJy', unit_sed_err='mJy', unit_cube_unc='Jy', cube_perm=True),
     dict(n=8, nap=5, nf=3, flat=False, general=True, sed_store='nu_dec', cube_store='nu_inc', pad=True, name30=True, subdir=True),
-    dict(n=3, nap=1, nf=3, flat=True, sed_store='nu_dec', cube_store='nu_dec', pad=False, name30=True, no_aps=True, unit_sed='erg/cm2/s', unit_cube='Jy', cube_perm=True),
-    dict(n=4, nap=2, nf=2, flat=False, general=False, sed_store='nu_inc', cube_store='nu_inc', pad=True, subdir=True, unit_sed='erg/cm2/s', unit_cube='mJy', cube_perm=True),
+    dict(n=3, nap=1, nf=3, flat=True, sed_store='nu_dec', cube_store='nu_dec', pad=False, name30=True, no_aps=True, unit_sed='erg/cm2/s', unit_cube='Jy', unit_sed_err='Jy', unit_cube_unc='mJy', cube_perm=True),
+    dict(n=4, nap=2, nf=2, flat=False, general=False, sed_store='nu_inc', cube_store='nu_inc', pad=True, subdir=True, unit_sed='erg/cm2/s', unit_cube='mJy', unit_sed_err='erg/cm2/s', unit_cube_unc='mJy', cube_perm=True),
     dict(n=5, nap=3, nf=2, flat=True, sed_store='nu_dec', cube_store='nu_inc', pad=True, subdir=True),
     dict(n=2, nap=4, nf=3, flat=False, general=True, sed_store='nu_inc', cube_store='nu_dec', pad=False),
-    dict(n=5, nap=1, nf=2, flat=False, general=True, sed_store='nu_dec', cube_store='nu_dec', pad=True, no_aps=False, unit_sed='Jy', unit_cube='Jy', cube_perm=True),
+    dict(n=5, nap=1, nf=2, flat=False, general=True, sed_store='nu_dec', cube_store='nu_dec', pad=True, no_aps=False, unit_sed='Jy', unit_cube='Jy', unit_sed_err='erg/cm2/s', unit_cube_unc='mJy', cube_perm=True),
     dict(n=6, nap=1, nf=3, flat=False, general=True, sed_store='nu_inc', cube_store='nu_inc', pad=True, no_aps=True, unit_sed='mJy', unit_cube='Jy', cube_perm=False),
 ]
 
@@ -268,7 +273,7 @@ def astropy_unit(unit):
     return {'mJy': u.mJy, 'Jy': u.Jy, 'erg/cm2/s': u.erg / u.cm ** 2 / u.s}[unit]
 
 
-def write_sed_raw(path, name, wav_um, flux, err, aps_au, unit='mJy'):
+def write_sed_raw(path, name, wav_um, flux, err, aps_au, unit='mJy', unit_err=None):
     """a seds/*.fits file in the layout `SED.read` expects, wavelengths stored exactly in the order given
     (`SED.write` always stores increasing frequency; the original model packages store decreasing frequency)"""
     from astropy.io import fits
@@ -279,6 +284,7 @@ def write_sed_raw(path, name, wav_um, flux, err, aps_au, unit='mJy'):
     h0.header['MODEL'] = name
     h0.header['DISTANCE'] = (1. * u.kpc).to(u.cm).value
     funit = astropy_unit(unit).to_string(format='fits')
+    eunit = astropy_unit(unit_err or unit).to_string(format='fits')
     if aps_au is None:                  # as SED.write stores an SED without apertures
         aps_au, apunit = [1.e-30], 'cm'
     else:
@@ -294,7 +300,7 @@ def write_sed_raw(path, name, wav_um, flux, err, aps_au, unit='mJy'):
     nw = len(wav)
     h3 = fits.BinTableHDU.from_columns([fits.Column(name='TOTAL_FLUX', format='%dD' % nw, unit=funit,
                                                     array=np.array(flux, dtype=float).reshape(len(aps_au), nw)),
-                                        fits.Column(name='TOTAL_FLUX_ERR', format='%dD' % nw, unit=funit,
+                                        fits.Column(name='TOTAL_FLUX_ERR', format='%dD' % nw, unit=eunit,
                                                     array=np.array(err, dtype=float).reshape(len(aps_au), nw))])
     h3.header['EXTNAME'] = 'SEDS'
     fits.HDUList([h0, h1, h2, h3]).writeto(path, overwrite=True)
@@ -304,9 +310,10 @@ def build_perfile(case, d1):
     names = case['names']
     flux, err = sed_arrays(case)
     unit = case.get('unit_sed', 'mJy')
-    flux, err = stored_values(flux, unit, case['wav']), stored_values(err, unit, case['wav'])
+    unit_e = case.get('unit_sed_err', unit)
+    flux, err = stored_values(flux, unit, case['wav']), stored_values(err, unit_e, case['wav'])
     params = {'PAR1': [float(names.index(t.strip())) for t in case['table']]}
-    plain = case['sed_store'] == 'nu_inc' and not any('/' in s for s in case['stems'].values())
+    plain = case['sed_store'] == 'nu_inc' and not any('/' in s for s in case['stems'].values()) and unit_e == unit
     if plain:
         pk.write_sed_package(d1, names, case['wav'], flux, err, apertures_au=case['aps'],
                              table_order=case['table'], params=params, file_names=case['stems'],
@@ -319,10 +326,12 @@ def build_perfile(case, d1):
         path = os.path.join(d1, 'seds', case['stems'][nme] + '.fits')
         os.makedirs(os.path.dirname(path), exist_ok=True)
         if case['sed_store'] == 'nu_inc':
-            pk.make_sed(nme, wav, flux[i], err[i], case['aps'], unit=astropy_unit(unit)).write(path, overwrite=True)
+            sed = pk.make_sed(nme, wav, flux[i], err[i], case['aps'], unit=astropy_unit(unit))
+            sed.error = np.array(err[i], dtype=float).reshape(sed.flux.shape) * astropy_unit(unit_e)
+            sed.write(path, overwrite=True)
         else:
             # increasing wavelength = decreasing frequency, stored as given
-            write_sed_raw(path, nme, wav, flux[i], err[i], case['aps'], unit=unit)
+            write_sed_raw(path, nme, wav, flux[i], err[i], case['aps'], unit=unit, unit_err=unit_e)
     pk.write_parameters(d1, case['table'], params)
 
 
@@ -332,11 +341,20 @@ def build_cube(case, d2):
     idx = [names.index(nme) for nme in case['cube']]
     wav = np.array(case['wav'], dtype=float)
     unit = case.get('unit_cube', 'mJy')
-    val, unc = stored_values(flux[idx], unit, case['wav']), stored_values(err[idx], unit, case['wav'])
+    unit_u = case.get('unit_cube_unc', unit)
+    val, unc = stored_values(flux[idx], unit, case['wav']), stored_values(err[idx], unit_u, case['wav'])
     if case['cube_store'] == 'nu_inc':      # increasing frequency = decreasing wavelength
         wav, val, unc = wav[::-1], val[:, :, ::-1], unc[:, :, ::-1]
-    pk.write_cube_package(d2, case['cube'], wav, val, unc, apertures_au=case['aps'],
-                          params={'PAR1': [float(i) for i in idx]}, unit=astropy_unit(unit))
+    if unit_u == unit:
+        pk.write_cube_package(d2, case['cube'], wav, val, unc, apertures_au=case['aps'],
+                              params={'PAR1': [float(i) for i in idx]}, unit=astropy_unit(unit))
+    else:
+        # values and uncertainties in different units: the cube keeps (and stores) the two units separately
+        pk.write_conf(d2, aperture_dependent=case['aps'] is not None and len(case['aps']) > 1, version=2)
+        c = pk.make_cube(case['cube'], wav, val, None, case['aps'], unit=astropy_unit(unit))
+        c.unc = np.array(unc, dtype=float) * astropy_unit(unit_u)
+        c.write(os.path.join(d2, 'flux.fits'), overwrite=True)
+        pk.write_parameters(d2, list(case['cube']), {'PAR1': [float(i) for i in idx]})
 
 
 def make_filters(case):
@@ -535,6 +553,10 @@ def impl_side(case, d):
            'nap_1' if case['nap'] == 1 else 'nap_gt1', 'filters_%d' % len(filters),
            'flat' if case['flat'] else 'nonflat', 'independent_expectation',
            'unit_sed_' + case.get('unit_sed', 'mJy').split('/')[0], 'unit_cube_' + case.get('unit_cube', 'mJy')}
+    if case.get('unit_cube_unc', case.get('unit_cube', 'mJy')) != case.get('unit_cube', 'mJy'):
+        br.add('cube_val_unc_units_differ')
+    if case.get('unit_sed_err', case.get('unit_sed', 'mJy')) != case.get('unit_sed', 'mJy'):
+        br.add('sed_flux_err_units_differ')
     if case['aps'] is None:
         br.add('no_apertures')
     if case.get('general'):
